@@ -499,3 +499,16 @@ func verif_lemma_frame_accessors(h *Session, p []byte) {
 	vAssert(spec_inside(pl, p) && (pl == nil || vOffset(pl, p) == f.offsetPayload))
 	vAssert(spec_inside(f.SrcAddr.MAC, p) && spec_inside(f.DstAddr.MAC, p))
 }
+
+// verif_global_facts: values of package-level addresses that are initialised
+// with netip.MustParseAddr of a literal (assumed by every harness of this package).
+func verif_global_facts() bool {
+	return IPv4zero == netip.AddrFrom4([4]byte{0, 0, 0, 0}) &&
+		IPv4bcast == netip.AddrFrom4([4]byte{255, 255, 255, 255}) &&
+		IP4Broadcast == netip.AddrFrom4([4]byte{255, 255, 255, 255}) &&
+		IPv6zero == netip.AddrFrom16([16]byte{}) &&
+		IP4AllNodesMulticast == netip.AddrFrom4([4]byte{224, 0, 0, 1}) &&
+		IP4AllRoutersMulticast == netip.AddrFrom4([4]byte{224, 0, 0, 2})
+}
+
+func verif_unroll_Ether_AppendPayload_1() int { return 48 }
